@@ -32,10 +32,12 @@ LInitTok == [n \in {"a"} |-> "t0"]
 
 CallAdd    == \E n \in UNames, c \in MCToks, rep \in BOOLEAN, enc \in {"none", "enc"} : BeginAdd(n, c, rep, enc, "zlib", FALSE)
 CallAddFix == \E n \in UNames, c \in MCToks : BeginAdd(n, c, TRUE, "fix", "none", FALSE)
+\* a content larger than a sector, stored as one compressed unit (grows when compact() stores it sectored)
+CallAddBig == \E n \in UNames, c \in MCToks : BeginAdd(n, c, TRUE, "none", "zlib", TRUE)
 CallRemove == \E n \in UNames : BeginRemove(n)
 CallRename == \E a \in UNames, b \in UNames : BeginRename(a, b)
 
-DesignNext == CallAdd \/ CallRemove \/ CallRename \/ DesignSteps \/ DesignSyncs
+DesignNext == CallAdd \/ CallAddBig \/ CallRemove \/ CallRename \/ DesignSteps \/ DesignSyncs
 MCSpec     == HInit /\ [][DesignNext]_hvars
 \* the implementation before the fix commits (TLC must keep refuting it: _codeA/B/C.cfg)
 Code0Next  == CallAdd \/ CallAddFix \/ CallRemove \/ CallRename \/ Code0Steps \/ Code0Syncs
@@ -44,7 +46,11 @@ CodeSpec   == HInit /\ [][Code0Next]_hvars
 Code1Next  == CallAdd \/ CallAddFix \/ CallRemove \/ CallRename \/ Code1Steps \/ Code1Syncs
 Code1Spec  == HInit /\ [][Code1Next]_hvars
 \* the implementation as it is now: must satisfy everything the design does (_codeOK.cfg, _codeF.cfg)
-CodeNowNext == CallAdd \/ CallAddFix \/ CallRemove \/ CallRename \/ CodeSteps \/ CodeSyncs
+CodeNowNext == CallAdd \/ CallAddFix \/ CallAddBig \/ CallRemove \/ CallRename \/ CodeSteps \/ CodeSyncs
+\* hypothetical: compact() that keeps the old append cursor (must violate CursorBehindImage: _codeI.cfg)
+StaleCursorNext == CallAdd \/ CallAddBig \/ CallRemove \/ CallRename \/ CodeSteps \/ Open \/ FlushClean \/ CloseClean
+                   \/ FlushRelocate \/ CloseRelocate \/ CompactKeepsCursor
+StaleCursorSpec == HInit /\ [][StaleCursorNext]_hvars
 CodeNowSpec == HInit /\ [][CodeNowNext]_hvars
 \* ... and restricted to what is believed correct now (V1/V2, listfile present, no encryption, no name
 \* spelled inside another): this machine must satisfy everything the design does (_codeOK.cfg)
